@@ -94,6 +94,22 @@ func (ig *ingest) gates(e *Effect) {
 	case e.Kind == "call" && (e.Name == "quorum.IsQuorum" || e.Name == "quorum.HasHonest") && len(e.Args) == 2:
 		if pathHas(e, "termincommittee") || pathHas(e, "preparedmessages") {
 			ev := a.NewEval(e, ig.r)
+			// L5.own, anchored at the quorum test as well: the voters may have been collected by a pure helper, in which case
+			// the storage read is not an effect of its own
+			if e.Name == "quorum.IsQuorum" && pathHas(e, "termincommittee") {
+				var rd *Term
+				ev.Arg(0).Walk(func(x *Term) {
+					if rd == nil && x.Op == "call" && x.Name == "interfaces.GetPrepareSendersIds" && len(x.Args) == 4 {
+						rd = x
+					}
+				})
+				if rd != nil {
+					own := Call("messagesfactory.CreatePrepareMessage", k.MF, unfreeze(rd.Args[1]), unfreeze(rd.Args[2]), unfreeze(rd.Args[3]))
+					if ev.Has(Done(own)) != nil {
+						ev.Require("L5.own", props("C05", "C10"), "when the node has signed its own PREPARE for (h, v, hash) it is stored before the prepared quorum for that key is evaluated (otherwise its own weight is never counted and a timely view cannot complete)", "", Done(Call("interfaces.StorePrepare", k.ST, own)))
+					}
+				}
+			}
 			ev.Verdict("G7", props("C01"), "every quorum test inside the term is evaluated against the term's own committee (never a message-derived list)", "", ev.Same(ev.Arg(1), k.Cmt), "committee argument is "+PP(ev.Arg(1)))
 		}
 
